@@ -220,6 +220,43 @@ pub fn run() -> i32 {
         }
     });
     ctx.absorb("object-api", st);
+    // the preset entry points of the object API (real costs: 64 MiB / 256 MiB / 1 GiB)
+    let mut st = Stats::new();
+    let presets: Vec<(&str, u32, u32)> = match tier {
+        Tier::Quick => vec![("hash_interactive", 2, 65536), ("hash_with_defaults", 2, 65536)],
+        Tier::Thorough => vec![("hash_interactive", 2, 65536), ("hash_with_defaults", 2, 65536), ("hash_moderate", 3, 262144), ("hash_sensitive", 4, 1048576)],
+    };
+    for (name, t, m) in presets {
+        let pw = b"preset password".to_vec();
+        let r = guarded(AssertUnwindSafe(|| {
+            let h: PwHash<Vec<u8>, Vec<u8>> = match name {
+                "hash_interactive" => PwHash::hash_interactive(&pw).unwrap(),
+                "hash_with_defaults" => PwHash::hash_with_defaults(&pw).unwrap(),
+                "hash_moderate" => PwHash::hash_moderate(&pw).unwrap(),
+                _ => PwHash::hash_sensitive(&pw).unwrap(),
+            };
+            let s = h.to_string();
+            let (hash, salt, _) = h.into_parts();
+            let (_, want, enc) = sodium::argon2_raw(t, m, &pw, &salt, 32, 2, true);
+            hash == want && salt.len() == 16 && s == enc
+        }));
+        st.eval(&("preset", name), true, if r == Ok(true) { "preset==libsodium" } else { "preset-differs" });
+        if r != Ok(true) {
+            st.fail(Fail { check: "C09.argon2".into(), signature: format!("C09/object/preset/{}", name), what: format!("PwHash::{} does not equal argon2id(t={}, m={} KiB) of libsodium over the salt it chose / its string differs: {:?}", name, t, m, r), case: json!({"kind": "reject"}) });
+        }
+    }
+    st.sample(json!({"object_api_presets": ["hash_interactive (t=2, 64 MiB)", "hash_moderate (t=3, 256 MiB; thorough)", "hash_sensitive (t=4, 1 GiB; thorough)"]}));
+    ctx.absorb("object-presets", st);
+    {
+        let mut t: Vec<crate::purity::Entry> = vec![];
+        let names = ["pwhash#0", "pwhash#1", "pwhash#2", "pwhash#3", "pwhash#4", "pwhash#5"];
+        for (i, (outlen, pl, t_, m, typ)) in [(32usize, 8usize, 1u64, 8usize, 2i32), (32, 8, 1, 8, 1), (64, 0, 2, 13, 2), (16, 20, 3, 8, 1), (65, 8, 1, 33, 2), (32, 9, 2, 8, 2)].into_iter().enumerate() {
+            let pwd = cval(seed, 3, pl);
+            let salt = kval(seed ^ 0x9, 2 + i % 3, 16);
+            t.push((names[i], Box::new(move || dry(outlen, &pwd, &salt, t_, m * 1024, typ).ok().flatten().unwrap_or_default())));
+        }
+        crate::purity::triples(&mut ctx, "C09", "C09.argon2", t);
+    }
     ctx.require_outcome("argon2==libsodium");
     ctx.require_outcome("rejected-out-of-range");
     ctx.finish()
